@@ -1,6 +1,7 @@
 // C20 — hex codec (C functions and C++ helpers) and, when compiled with
 // -DASCON_NO_STL, the replacement byte_array against std::vector<unsigned char>.
 #include "common.hpp"
+#include <climits>
 #include <ascon/utility.h>
 #include <vector>
 #include <string>
@@ -76,7 +77,8 @@ static std::string check_hex(const KV &c) {
     {
         Guard g(outlen);
         Buf in(b);
-        int r = ascon_bytes_to_hex((char *)g.p(), outlen, in.p, in.n, upper ? 1 : 0);
+        static const int NONZERO[6] = {1, 2, -1, 256, INT_MIN, 0x20};   // "Use uppercase hexadecimal letters if non-zero"
+        int r = ascon_bytes_to_hex((char *)g.p(), outlen, in.p, in.n, upper ? NONZERO[(in.n + outlen) % 6] : 0);
         if (!g.intact()) return "ascon_bytes_to_hex wrote outside its " + num(outlen) + "-byte buffer";
         if (outlen >= need) {
             if (r != (int)(b.size() * 2)) return "ascon_bytes_to_hex returned " + std::to_string(r) + " want " + num(b.size() * 2);
